@@ -454,6 +454,41 @@ func runC07(c *core.Ctx) {
 					}
 				}
 			}
+			// … nor patched through a slice or an element address (copy(hash[:], value), hash[i] = b)
+			for _, r := range *al.Referrers() {
+				var views []ssa.Value
+				switch x := r.(type) {
+				case *ssa.Slice:
+					views = append(views, x)
+				case *ssa.IndexAddr:
+					views = append(views, x)
+				}
+				for _, v := range views {
+					if v.Referrers() == nil {
+						continue
+					}
+					for _, u := range *v.Referrers() {
+						switch y := u.(type) {
+						case *ssa.Store:
+							if y.Addr == v {
+								okFold = false
+							}
+						case *ssa.IndexAddr:
+							if y.Referrers() != nil {
+								for _, w := range *y.Referrers() {
+									if st, isSt := w.(*ssa.Store); isSt && st.Addr == ssa.Value(y) {
+										okFold = false
+									}
+								}
+							}
+						case *ssa.Call:
+							if bi, isB := y.Common().Value.(*ssa.Builtin); isB && bi.Name() == "copy" && len(y.Common().Args) > 0 && y.Common().Args[0] == v {
+								okFold = false
+							}
+						}
+					}
+				}
+			}
 		} else {
 			okFold = false
 		}
